@@ -31,7 +31,7 @@ def factor(n, rng):
 
 
 def cases(seed, tier):
-    n = 24 if tier == "quick" else 500
+    n = 24 if tier == "quick" else 400
     out = []
     for k in range(n):
         rng = trees.rng_for(seed, PID, k)
